@@ -94,6 +94,7 @@ class FuncDeps:
         self.module_containers = module_containers
         a = fn.args
         self.params = {x.arg for x in a.posonlyargs + a.args + a.kwonlyargs} | ({a.vararg.arg} if a.vararg else set()) | ({a.kwarg.arg} if a.kwarg else set())
+        self.for_key = False
         self.assigns = {}  # local name -> [value expr]
         self.loops = {}  # local name -> [iter expr]
         for n in ast.walk(fn):
@@ -161,8 +162,12 @@ class FuncDeps:
                 for v in before:
                     merge(self.roots(v, seen))
                 for it in self.loops.get(n, []):
-                    merge(self.roots(it, seen))
-                    D.add(f"element {n} of {ast.unparse(it)[:40]}")
+                    if not self.for_key:
+                        # a value computed from an element depends on the iterable too; a key holding the element's
+                        # value does not contain the iterable
+                        merge(self.roots(it, seen))
+                    # the element is identified by its loop: targets of one loop (index and element, zipped sequences) move together
+                    D.add(f"element {n} of {ast.unparse(it)[:40]} @loop{getattr(it, 'lineno', 0)}:{getattr(it, 'col_offset', 0)}")
             elif n in self.params:
                 D.add(n)
             elif n in self.outer:
@@ -241,6 +246,10 @@ def _covered(root, key_roots):
     for k in key_roots:
         if root == k or root.startswith(k + "."):
             return True
+    if root.startswith("element ") and "@loop" in root:
+        loop = root.rsplit("@loop", 1)[1]
+        # another target of the same loop is in the key (the iterable itself is a separate root and must be covered on its own)
+        return any(k.startswith("element ") and k.rsplit("@loop", 1)[-1] == loop for k in key_roots)
     return False
 
 
@@ -427,14 +436,16 @@ def analyse(proj, module_filter=None):
         consts = set()
         for s in sts:
             fd = FuncDeps(s.fn, consts, table)
+            fd.for_key = True
             kD, kM = fd.roots(s.key) if s.key is not None else (set(), set())
+            fd.for_key = False
             vD, vM = fd.roots(s.value) if s.value is not None else (set(), set())
             key_roots = kD | kM
             if s.scope == "instance":
                 key_roots = key_roots | {"self"}  # the memo lives on the object: its own (construction-time) state is part of the key
             if s.scope == "instance":
                 key_roots = key_roots | _equal_to_self(s.fn, s.node)
-            missing = sorted(r for r in vD if not _covered(r, key_roots) and (s.container, r) not in CONFIRMED)
+            missing = sorted(r.split(" @loop")[0] for r in vD if not _covered(r, key_roots) and (s.container, r) not in CONFIRMED)
             may_missing = sorted(r for r in vM if not _covered(r, key_roots) and (s.container, r) not in CONFIRMED)
             site = f"{m.relpath}:{s.node.lineno}"
             construct = f"{s.container} <- {m.name}::{(s.cls_name + '.') if s.cls_name else ''}{s.fn.name}"
@@ -449,7 +460,7 @@ def analyse(proj, module_filter=None):
                                 detail=f"`{stmt}`: the stored value may depend on {may_missing[:3]} (method call on an input object) which is not in the key"))
             else:
                 res.append(dict(site=site, construct=construct, status="discharged", key=s.container,
-                                detail=f"`{stmt}`: every input of the stored value ({sorted(vD | vM)[:4]}) occurs in the key ({ast.unparse(s.key)[:40] if s.key is not None else 'constant value'})"))
+                                detail=f"`{stmt}`: every input of the stored value ({sorted(x.split(' @loop')[0] for x in vD | vM)[:4]}) occurs in the key ({ast.unparse(s.key)[:40] if s.key is not None else 'constant value'})"))
     return res, n_containers
 
 
@@ -461,6 +472,16 @@ class Memo:
         if key not in self._w:
             self._w[key] = conv(ker, self.xi, pj)
         return self._w[key]
+
+class PerObject:
+    def __init__(self, basis):
+        self.basis = basis
+        self.memo = {}
+    def weights(self, f):
+        for i, p in enumerate(self.basis):
+            if i not in self.memo:
+                self.memo[i] = p.area()
+        return self.memo
 
 _tab = {}
 def good(a, b):
@@ -486,7 +507,7 @@ def canary():
     proj = types.SimpleNamespace(modules={"canary": m})
     res, n = analyse(proj)
     st = sorted((r["key"], r["status"]) for r in res)
-    if st != [("canary::Memo._w", "violated"), ("canary::_tab", "discharged")] or n != 2:
+    if st != [("canary::Memo._w", "violated"), ("canary::PerObject().memo", "discharged"), ("canary::_tab", "discharged")] or n != 2:
         raise AnalysisError(f"process-state rule canary failed: {st}")
 
 
